@@ -39,7 +39,27 @@ pub struct CrashCase {
 /// processing).
 pub fn crash_scenario(max_cols: usize, min_ops: usize, max_ops: usize, multi: bool, big: u32) -> impl Strategy<Value = Scenario> {
 	(mixed_cfg(max_cols, multi), 0u8..4).prop_flat_map(move |(cfg, regime)| {
-		let commit = mixed_items(&cfg, 12, big, 6, 3).prop_map(Op::Commit);
+		// besides small mixed transactions: bulk inserts / deletions of a dense key run in a btree
+		// column (if there is one), so that splits, merges and root changes are what a crash hits
+		let btree_col = cfg.cols.iter().position(|c| c.kind == Kind::Btree && !c.rc).map(|c| c as u8);
+		let small = mixed_items(&cfg, 12, big, 6, 3).prop_map(Op::Commit);
+		let commit: BoxedStrategy<Op> = match btree_col {
+			Some(col) => prop_oneof![
+				8 => small,
+				1 => (0u16..60, 10u16..70, any::<bool>(), 0u16..500).prop_map(move |(start, n, del, seed)| {
+					Op::Commit(
+						(0..n)
+							.map(|i| {
+								let k = (start + i) % 90;
+								Item { col, ch: if del && i % 4 != 0 { Change::Del(k) } else { Change::Set(k, VSpec { len: 5 + (i as u32 % 40), fill: 1, seed: seed.wrapping_add(i) }) } }
+							})
+							.collect(),
+					)
+				}),
+			]
+			.boxed(),
+			None => small.boxed(),
+		};
 		let block: BoxedStrategy<Vec<Op>> = match regime {
 			0 => prop_oneof![
 				10 => commit.prop_map(|c| vec![c]),
